@@ -535,6 +535,54 @@ def second_close_after_others_saved(ctx):
                     ctx.violation('foreign object changed or deleted', w)
 
 
+def neighbours_by_spelling(ctx):
+    """Cassettes of one bucket whose key prefixes differ only by outer slashes ('team', 'team/', '/team', '/'), whose prefixes CONTINUE the
+    text of the cassette's own folders ('team/full_2023', 'team/metadata-v2'), and foreign objects named like that ('.../team/full.txt'):
+    a transient cassette that is closed removes only what cassettes of exactly its own key prefix saved, and lists only that."""
+    group = ['team', 'team/', '/team', 'team//', '/team/', '', '/', 'team/full_2023', 'team/metadata-v2', 'team/nightly', 'tea', 'full', 'metadata']
+    foreign = [ROOT + 'team/full.txt', ROOT + 'team/metadata.json', ROOT + 'team/fullest/x', ROOT + 'full.txt', ROOT + 'metadata.json', 'team/full/x',
+               ROOT + 'team/full_2023.txt']
+    for x in group:
+        fake = FakeS3()
+        with fake.installed():
+            saved = {}
+            for prefix in group:
+                c = fake.cassette('perm:' + prefix, key_prefix=prefix, read_only=False)
+                for i in range(2):
+                    r = c.create_new_recording('Op')
+                    r.set_data('k', i)
+                    r.add_metadata({'m': i})
+                    c.save_recording(r)
+                    saved.setdefault(prefix, []).append(r.id)
+            for k in foreign:
+                fake.put('foreign', 'bkt', k, b'foreign', {})
+            own_keys = set(m[3] for m in fake.log if m[1] == 'put' and m[0] == 'perm:' + x)
+            t = fake.cassette('x', key_prefix=x, read_only=False, transient=True)
+            r = t.create_new_recording('Op')
+            r.set_data('k', 'mine')
+            t.save_recording(r)
+            own_keys |= set(m[3] for m in fake.log if m[1] == 'put' and m[0] == 'x')
+            w = {'neighbours_by_spelling': True, 'closed_prefix': x}
+            ctx.case(w)
+            ctx.count('closes_next_to_neighbours_that_differ_by_spelling')
+            listed = sorted(t.iter_recording_ids('Op'))
+            if listed != sorted(saved[x] + [r.id]):
+                ctx.violation('a cassette lists recordings that were saved under another key prefix (or misses its own): %d listed, %d saved under %r' % (
+                    len(listed), len(saved[x]) + 1, x), dict(w, listed=listed[:4]))
+            before = fake.snapshot()
+            t.close()
+            after = fake.snapshot()
+            # (what lies inside the closed cassette's own folders is its own by the layout: with the empty prefix the folders 'full/' and
+            # 'metadata/' of the root also contain every cassette whose key prefix is spelled 'full' or 'metadata')
+            lost = sorted(k for k in before if k not in own_keys and not in_ns(k, x) and after.get(k) != before[k])
+            if lost:
+                ctx.violation('closing a transient cassette with key prefix %r removed / changed %d objects that cassettes of other key prefixes (or '
+                              'nobody of the library) had put' % (x, len(lost)), dict(w, lost=lost[:4]))
+            left = sorted(k for k in after if k in own_keys)
+            if left:
+                ctx.violation('closing a transient cassette left %d of its own objects' % len(left), dict(w, left=left[:3]))
+
+
 def large_recordings(ctx):
     """Recordings of 100 kB .. 65 MB (33 and 129 MB more in the thorough tier): whatever the size, what lookup discovers after the save is
     completely fetchable and holds what was saved."""
@@ -578,6 +626,7 @@ def run(ctx):
         large_recordings(ctx)
         refused_delete_then_close_again(ctx)
         second_close_after_others_saved(ctx)
+        neighbours_by_spelling(ctx)
     from playback.tape_cassettes.s3.s3_tape_cassette import S3TapeCassette
     env.anchor(S3TapeCassette, '_save_recording')
     n = ctx.budget(300, 20000)
@@ -591,6 +640,8 @@ def run(ctx):
 
 
 def replay(ctx, w):
+    if w.get('neighbours_by_spelling'):
+        return neighbours_by_spelling(ctx)
     if w.get('second_close'):
         return second_close_after_others_saved(ctx)
     if w.get('refused_delete'):
